@@ -176,8 +176,15 @@ func (e *Engine) assumeType(st *State, v *Value) {
 			}
 			return
 		}
+		isUnsafe := false
+		if b, ok := v.T.Underlying().(*types.Basic); ok && b.Kind() == types.UnsafePointer {
+			isUnsafe = true
+		}
 		switch v.T.Underlying().(type) {
 		case *types.Pointer, *types.Map, *types.Signature, *types.Chan:
+			isUnsafe = true
+		}
+		if isUnsafe {
 			if v.Tm.Int == nil {
 				st.assume(ts.Le(ts.Int(0), v.Tm))
 				if st.alloc != nil {
@@ -416,10 +423,18 @@ type lval struct {
 	raw    bool       // element of a slice of invariant-bearing structs (or reached through a raw pointer)
 	rawC   *Term      // condition under which the access is raw (nil = always)
 	elemOf types.Type // set when the location is a slice element: the element type
+	mapH   *mapHeaps  // element of a modelled map: heaps, map address, key
+	mapM   *Term
+	mapK   *Term
 }
 
 // loadLval reads the location, honouring raw access.
 func (fx *fctx) loadLval(st *State, lv *lval) *Value {
+	if lv.mapH != nil {
+		e := fx.e
+		z := e.zeroValue(lv.t)
+		return &Value{T: lv.t, Tm: e.ts.Ite(e.mapHas(st, lv.mapH, lv.mapM, lv.mapK), e.mapGet(st, lv.mapH, lv.mapM, lv.mapK), z.Tm)}
+	}
 	saved, savedC := fx.rawAccess, fx.rawCond
 	if lv.raw {
 		fx.rawAccess = true
@@ -483,7 +498,10 @@ func (fx *fctx) evalLval(st *State, x ast.Expr) *lval {
 		case *types.Map:
 			m := fx.eval(st, x.X)
 			fx.check(st, "nilmap", abbrev(e.exprStr(x)), e.ts.Ne(m.Tm, e.ts.Int(0)), x, "assignment to entry in nil map")
-			fx.eval(st, x.Index)
+			k := fx.eval(st, x.Index)
+			if mt := e.mapModelled(bt); mt != nil {
+				return &lval{mapH: e.mapHeapsOf(mt), mapM: m.Tm, mapK: k.Tm, t: u.Elem()}
+			}
 			return &lval{blank: true, t: u.Elem()}
 		case *types.Pointer:
 			if at, ok := u.Elem().Underlying().(*types.Array); ok {
@@ -564,6 +582,13 @@ func (fx *fctx) assign(st *State, lv *lval, v *Value, n ast.Node) {
 		return
 	}
 	v = fx.convertForAssign(st, v, lv.t)
+	if lv.mapH != nil {
+		if v.Tm == nil {
+			e.unsup(n, "non-scalar value stored into a modelled map")
+		}
+		e.mapSet(st, lv.mapH, lv.mapM, lv.mapK, v.Tm)
+		return
+	}
 	if lv.addr != nil {
 		if lv.elemOf != nil && lv.key == "" && e.nonNilElem(lv.elemOf) && v.Tm != nil && !fx.spec {
 			fx.check(st, "elem-nonnil", "", e.ts.Ne(v.Tm, e.ts.Int(0)), n, "value stored into a slice element is not nil")
@@ -971,6 +996,14 @@ func (fx *fctx) evalIndex(st *State, x *ast.IndexExpr) *Value {
 		e.assumeType(st, v)
 		return v
 	case *types.Map:
+		if mt := e.mapModelled(bt); mt != nil {
+			h := e.mapHeapsOf(mt)
+			m := fx.eval(st, x.X)
+			k := fx.eval(st, x.Index)
+			v := &Value{T: u.Elem(), Tm: ts.Ite(e.mapHas(st, h, m.Tm, k.Tm), e.mapGet(st, h, m.Tm, k.Tm), e.zeroValue(u.Elem()).Tm)}
+			e.assumeType(st, v)
+			return v
+		}
 		fx.eval(st, x.X)
 		fx.eval(st, x.Index)
 		v := e.havocValue(st, u.Elem(), "mapval")
@@ -1077,6 +1110,18 @@ func (fx *fctx) evalComposite(st *State, x *ast.CompositeLit) *Value {
 		}
 		return &Value{T: t, Sl: &SliceVal{Ptr: addr, Len: ts.Int(n), Cap: ts.Int(n)}}
 	case *types.Map:
+		if mt := e.mapModelled(t); mt != nil {
+			h := e.mapHeapsOf(mt)
+			addr := e.mapMake(st, h)
+			for _, el := range x.Elts {
+				if kv, ok := el.(*ast.KeyValueExpr); ok {
+					k := fx.eval(st, kv.Key)
+					v := fx.evalElt(st, kv.Value, u.Elem())
+					e.mapSet(st, h, addr, k.Tm, v.Tm)
+				}
+			}
+			return &Value{T: t, Tm: addr}
+		}
 		for _, el := range x.Elts {
 			if kv, ok := el.(*ast.KeyValueExpr); ok {
 				fx.eval(st, kv.Key)
